@@ -65,7 +65,6 @@ func (c *Ctx) checkMustPassPred(p *Prog, fn *ssa.Function, rule, key string, t t
 	return c.Check(rule, key, true, p.Pos(fn.Pos()), "")
 }
 
-
 // constInt returns the integer value of a constant.
 func constBig(v ssa.Value) (*big.Int, bool) {
 	c, ok := v.(*ssa.Const)
